@@ -45,4 +45,32 @@ CLAIMED["C15"] = {
     "note": "Modules whose annotations disagree are outside the claim. Trusted: Coq kernel; hand model tied differentially.",
     "technique": "Coq proofs (string induction; frame induction over the AST) + callee/import oracle on real outputs",
 }
-NOT_CLAIMED = {p: UNDER for p in ["C01", "C03", "C04", "C05", "C06", "C10", "C11", "C16", "C17", "C18", "C19", "C20"]}
+TYPES_NOTE = ("Trusted: Coq kernel; the hand model of resolve_type.rs is tied to the code differentially on the generated TS stream "
+              "(prop maps x encodings x declaration positions x scopes x call shapes); the expected values are the generator's own ground truth, "
+              "independent of the model; TypeScript's meaning of the type forms and Vue's validateProp/resolvePropValue are this check's reading (tools/props.py).")
+CLAIMED["C16"] = {
+    "text": "Theorems: C16_registry_complete (every alias of the module, wherever declared, is registered before the transformation - induction over the module's node list), C16_literal / C16_alias_paren_intersection / C16_partial_required_pick (each encoding operator is transparent or flips exactly the optional flag / keeps exactly the listed keys, for every fuel and registry), C16_required_unless_optional, C16_unresolved_reported. End to end, the `props` option received by the REAL output of every generated case is compared with the prop map the generator encoded (keys as declared, required unless optional).",
+    "note": TYPES_NOTE + " Known finding partial_getter. Interface registration/`extends` with type arguments are covered by correspondence only.",
+    "technique": "Coq proofs (laws of the resolver; list induction for the registry) + ground-truth oracle on real outputs",
+}
+CLAIMED["C17"] = {
+    "text": "Theorems C17_keyword_table / C17_builtin_names (finite tables, decided by computation: the model's constructor for every keyword and built-in name equals the table regenerated from resolve_type.rs on this run), C17_union_alias_paren, C17_order_kept. On real outputs, every emitted `type` is checked to accept every value kind of the declared type (generator's kind table composed through unions, aliases, intersections; a model of Vue's assertType).",
+    "note": TYPES_NOTE + " Known findings: bigint_literal (pinned by a fixture), union_with_any, empty_object_in_union.",
+    "technique": "Coq finite-table lemmas against regenerated tables + composition laws + acceptance oracle on real outputs",
+}
+CLAIMED["C18"] = {
+    "text": "Theorems C18_static_forms (literal as written, expression/shorthand through a factory), C18_function_prop (a Function-typed prop gets the written value, other types keep the factory), C18_key_spellings, C18_dynamic_forms (computed identifier key / spread => mergeDefaults). On real outputs the emitted default of every prop is compared with the form the generator wrote (literal, expression, shorthand, getter, method, async method, quoted/computed-literal keys, extra keys, dynamic forms).",
+    "note": TYPES_NOTE,
+    "technique": "Coq proofs (case analysis on the default forms) + ground-truth oracle on real outputs",
+}
+CLAIMED["C19"] = {
+    "text": "Theorems C19_property_syntax, C19_literal_event, C19_registry_complete; the event set received by the REAL output is compared as a set with the one the generator encoded (function type, union of function types, call-signature literal/interface, extends chains, property syntax, literal-union aliases, declarations before/after use); no SetupContext<E> annotation => no emits added.",
+    "note": TYPES_NOTE,
+    "technique": "Coq proofs (laws) + ground-truth oracle on real outputs",
+}
+CLAIMED["C20"] = {
+    "text": "Theorems C20_only_vue (a callee that is not the binding imported by name from 'vue', or resolveType off => call untouched), C20_user_option_wins (an option written in any spelling is kept and nothing added; spread argument lists and argument-less calls are left alone), C20_derived_before_spread (a derived option is inserted before the first spread; every user entry kept in order). On real outputs: calls with other provenance must be unchanged, user entries kept once and in order, no derived option after a spread, name only for simple declarations.",
+    "note": TYPES_NOTE + " Computed option keys are outside the claim.",
+    "technique": "Coq proofs (case analysis; list induction) + call-shape x provenance oracle on real outputs",
+}
+NOT_CLAIMED = {p: UNDER for p in ["C01", "C03", "C04", "C05", "C06", "C10", "C11"]}
